@@ -22,3 +22,9 @@ func VerifResolveBisyncCheckpointName(cfg SyncerConfig, cli client.Redis, ids []
 	s := &syncer{cfg: cfg, logger: log.WithLogger(config.LogModuleName("[syncer(verif)] "))}
 	return s.resolveBisyncCheckpointNameWithClient(cli, ids, checkpoint.BisyncModeFromReplayMode(mode), bisyncRecoverySlotsForConfig(cfg.Output))
 }
+
+// VerifChoseKeyInSlots forwards to the unexported search for a checkpoint key
+// name whose cluster slot lies inside the target's slot ranges.
+func VerifChoseKeyInSlots(prefix string, slots *config.RedisSlots) string {
+	return choseKeyInSlots(prefix, slots)
+}
